@@ -386,6 +386,10 @@ def attach_field_tie(d, ck):
 
 
 def replay(rp):
+    if rp.get('kind') == 'curved':
+        bad = curved_property(rp['name'])
+        print('replay', rp['name'], '->', bad or 'property holds')
+        return 1 if bad else 0
     if rp.get('kind') == 'attach-fields':
         from common import run_main
         r = run_main(rp['argv'], want_mininec=True)
@@ -410,12 +414,32 @@ def replay(rp):
     return 1 if bad else 0
 
 
+def curved_property(name):
+    import c12
+    mk = dict(c12.curved_cases())[name]
+    m = c12.build_curved(name, mk)
+    try:
+        return property_on_impl(m, topo.observe_impl(m))
+    except Exception as e:
+        return 'addressing raised %s: %s' % (type(e).__name__, e)
+
+
 def run(ck):
     ck.proof_side()
     d = ck.get_driver()
     n = 500 if ck.tier == 'quick' else 6000
     dis = []
     nq = 0
+    # arcs, helices, loops closed on themselves and through other objects (C12's list): row k of the block of an object is what
+    # `k, tag` resolves to, for sources and loads; `all` forms attach the rows of the block
+    import c12
+    for name, _ in c12.curved_cases():
+        bad = curved_property(name)
+        ck.case(('curved', name), True)
+        ck.count('curved_addressing_cases')
+        if bad:
+            ck.violation(dict(kind='curved', name=name, observed=bad))
+            return
     for i in range(n):
         spec = topo.gen_structure(ck.rng, max_wires=6)
         try:
